@@ -34,6 +34,7 @@ func init() {
 			{Name: "multi-sender", N: core.TierN(300, 12000), Batch: 20, Run: c08Multi},
 			{Name: "add-reference", N: core.TierN(1, 1), Solo: true, Run: c08AddRef},
 			{Name: "misuse-during-send", N: core.TierN(60, 2400), Batch: 10, Run: c08MisuseDuringSend},
+			{Name: "sole-receiver-churn", N: core.TierN(12, 480), Batch: 2, Run: c08SoleChurn},
 		},
 	})
 }
@@ -425,20 +426,26 @@ func c08AddRef(c *core.Ctx) {
 							y.Add(pd)
 						}
 						core.Recover(func() { y.Add(d) })
-						f := call(func() int {
-							switch kind {
-							case "Add(0)":
-								return y.Add(0)
-							case "Send":
-								return y.Send(1)
-							case "Add(+1)":
-								return y.Add(1)
-							default:
-								return y.Add(-1)
-							}
-						})
+						var f outcome
+						returned := core.AwaitDone(core.Go(func() {
+							f = call(func() int {
+								switch kind {
+								case "Add(0)":
+									return y.Add(0)
+								case "Send":
+									return y.Send(1)
+								case "Add(+1)":
+									return y.Add(1)
+								default:
+									return y.Add(-1)
+								}
+							})
+						}), 3000)
 						cases++
-						if !f.panicked {
+						if !returned {
+							// (the goroutine stays behind, blocked; this family has its process to itself)
+							c.Violate("followup-blocked", "%s: after the unbalanced Add(%d), %s neither panicked nor returned: the misuse went unnoticed and the call is stuck", desc, d, kind)
+						} else if !f.panicked {
 							c.Violate("followup-unnoticed", "%s: after the unbalanced Add(%d), %s returned %d instead of panicking", desc, d, kind, f.ret)
 						} else if isRuntimePanic(f.msg) {
 							c.Violate("foreign-panic", "%s: follow-up %s surfaced as a Go runtime error (%q)", desc, kind, f.msg)
@@ -574,4 +581,82 @@ func c08MisuseDuringSend(c *core.Ctx) {
 // library reporting misuse; the wording of the library's own panic messages is not asserted.
 func isRuntimePanic(msg string) bool {
 	return strings.HasPrefix(msg, "runtime error:") || strings.Contains(msg, "all goroutines are asleep")
+}
+
+// c08SoleChurn: a single receiver registers and, if nothing is on offer, deregisters again, in a tight loop, while a
+// sender sends in a tight loop: the registered count keeps going 0 -> 1 -> 0 right under Send's feet (including
+// between Send's reading of the state and its arming it). No call may panic, and what the Sends report equals what was
+// received.
+func c08SoleChurn(c *core.Ctx) {
+	triples := 2 + c.Rng.IntN(3)
+	cycles := 20000
+	if c.Thorough() {
+		cycles = 60000
+	}
+	var wg sync.WaitGroup
+	var panicked atomic.Int64
+	var pmsg atomic.Value
+	var sent, reported, received, absorbed atomic.Int64
+	for t := 0; t < triples; t++ {
+		x := bigbuff.NewChanCaster(make(chan int))
+		var done atomic.Bool
+		wg.Add(2)
+		go func() { // receiver
+			defer wg.Done()
+			defer done.Store(true)
+			for i := 0; i < cycles; i++ {
+				if pv := core.Recover(func() { x.Add(1) }); pv != nil {
+					panicked.Add(1)
+					pmsg.Store(fmt.Sprintf("Add(1): %v", pv))
+					return
+				}
+				select {
+				case <-x.C:
+					received.Add(1)
+				default:
+					if pv := core.Recover(func() { x.Add(-1) }); pv != nil {
+						panicked.Add(1)
+						pmsg.Store(fmt.Sprintf("Add(-1): %v", pv))
+						return
+					}
+					absorbed.Add(1)
+				}
+			}
+		}()
+		go func() { // sender
+			defer wg.Done()
+			for i := 0; !done.Load(); i++ {
+				var n int
+				if pv := core.Recover(func() { n = x.Send(i) }); pv != nil {
+					panicked.Add(1)
+					pmsg.Store(fmt.Sprintf("Send #%d: %v", i, pv))
+					return
+				}
+				sent.Add(1)
+				reported.Add(int64(n))
+				if n > 1 {
+					panicked.Add(1)
+					pmsg.Store(fmt.Sprintf("Send #%d returned %d with a single receiver", i, n))
+					return
+				}
+			}
+		}()
+	}
+	if !core.AwaitDone(core.Go(wg.Wait), 60000) {
+		c.Violate("blocked", "a tight register/deregister loop against a tight Send loop did not finish (%d triples)", triples)
+		c.SetDump(core.DumpAll())
+		return
+	}
+	if panicked.Load() > 0 {
+		c.Violate("false-panic", "a call failed although the contract was obeyed (one receiver: Add(1), then receive or Add(-1); one sender): %v", pmsg.Load())
+	} else if reported.Load() != received.Load() {
+		c.Violate("receipts-vs-count", "the Sends reported %d deliveries in total but %d values were received", reported.Load(), received.Load())
+	}
+	c.Op("send", int(sent.Load()))
+	c.Op("receive", int(received.Load()))
+	c.Count("deregistrations", int(absorbed.Load()))
+	if received.Load() > 0 && absorbed.Load() > 0 {
+		c.Nontrivial()
+	}
+	c.Sig("sole-churn", triples, received.Load() > 0)
 }
